@@ -15,6 +15,7 @@ import (
 	"encoding/json"
 	"fmt"
 	"sort"
+	"strings"
 	"testing"
 
 	"github.com/ChainSafe/gossamer/dot/digest"
@@ -122,6 +123,7 @@ type c36Env struct {
 	auths   [][]types.GrandpaAuthoritiesRaw
 	babeCfg *types.BabeConfiguration
 	version trie.TrieLayout
+	soft    bool
 }
 
 func c36Auth(seed byte) types.GrandpaAuthoritiesRaw {
@@ -237,13 +239,39 @@ func (e *c36Env) importBlock(parent *types.Header, slot uint64, salt byte, conse
 		t.Fatal(err)
 	}
 	if err := e.handler.HandleDigests(h); err != nil {
+		if e.soft {
+			e.mark(fmt.Sprintf("import #%d(%d) refused", h.Number, salt))
+			panic("c36-import-refused: " + err.Error())
+		}
 		t.Fatal(err)
 	}
 	if err := e.svc.Grandpa.ApplyForcedChanges(h); err != nil {
+		if e.soft {
+			e.mark(fmt.Sprintf("import #%d(%d) refused", h.Number, salt))
+			panic("c36-import-refused: " + err.Error())
+		}
 		t.Fatal(err)
 	}
 	e.mark(fmt.Sprintf("import #%d(%d)", h.Number, salt))
 	return h
+}
+
+// tryImport is importBlock for generated scenarios: an import that the state services refuse (second
+// forced change on a fork, forced change blocked by a pending scheduled change) ends the scenario
+// instead of failing the harness.
+func (e *c36Env) tryImport(parent *types.Header, slot uint64, salt byte, consensus ...any) (h *types.Header, ok bool) {
+	defer func() {
+		if x := recover(); x != nil {
+			if s, isStr := x.(string); isStr && strings.HasPrefix(s, "c36-import-refused") {
+				h, ok = nil, false
+				return
+			}
+			panic(x)
+		}
+	}()
+	e.soft = true
+	defer func() { e.soft = false }()
+	return e.importBlock(parent, slot, salt, consensus...), true
 }
 
 // finalise does what the GRANDPA voter and the digest handler do on finalisation.
@@ -270,6 +298,12 @@ func (e *c36Env) finalise(h *types.Header, round uint64) {
 		t.Fatal(err)
 	}
 	if err := e.svc.Grandpa.ApplyScheduledChanges(h); err != nil {
+		if e.soft {
+			// e.g. "unfinalized ancestor": the finalisation jumped over a pending change (the node only logs
+			// this); the scenario ends here, its crash points are still enumerated
+			e.mark(fmt.Sprintf("finalise #%d round %d (scheduled changes not applicable: %v)", h.Number, round, err))
+			panic("c36-finalise-stop")
+		}
 		t.Fatal(err)
 	}
 	e.mark(fmt.Sprintf("finalise #%d round %d", h.Number, round))
@@ -324,6 +358,108 @@ func c36Scenarios() []c36Scenario {
 	}
 }
 
+// c36Generated: every sequence of up to maxLen steps over a small step grammar, each a scenario of its
+// own (so the crash points of every combination of imports on the tip / on a fork, announcements of
+// scheduled or forced changes and finalisations are enumerated, not only the five scripted ones).
+//   i : import a child of the current tip            f : import a sibling of the current tip (fork)
+//   s : import a child announcing a scheduled change (delay 1)    x : ... a forced change (delay 1)
+//   Z : finalise the current tip                      z : finalise the parent of the current tip
+func c36Generated(maxLen int) []c36Scenario {
+	var out []c36Scenario
+	alphabet := []byte("ifsxZz")
+	var rec func(cur []byte)
+	rec = func(cur []byte) {
+		if len(cur) > 0 {
+			seq := string(cur)
+			// keep sequences that contain at least one finalisation and do not finalise before any import
+			if strings.ContainsAny(seq, "Zz") {
+				out = append(out, c36Scenario{"G:" + seq, trie.V0, func(e *c36Env, g *types.Header) { c36RunSeq(e, g, seq) }})
+			}
+		}
+		if len(cur) == maxLen {
+			return
+		}
+		for _, a := range alphabet {
+			rec(append(append([]byte{}, cur...), a))
+		}
+	}
+	rec(nil)
+	return out
+}
+
+func c36RunSeq(e *c36Env, g *types.Header, seq string) {
+	a2 := c36Auth(2)
+	tip, parent := g, (*types.Header)(nil)
+	var fin *types.Header = g
+	round := uint64(0)
+	salt := byte(1)
+	isAnc := func(a, b *types.Header) bool { // a ancestor-or-equal of b, walking the headers we built
+		ok, err := e.svc.Block.IsDescendantOf(a.Hash(), b.Hash())
+		return err == nil && ok
+	}
+	for _, c := range seq {
+		switch c {
+		case 'i', 's', 'x':
+			var dg []any
+			if c == 's' {
+				dg = append(dg, types.GrandpaScheduledChange{Auths: []types.GrandpaAuthoritiesRaw{a2}, Delay: 1})
+			}
+			if c == 'x' {
+				dg = append(dg, types.GrandpaForcedChange{BestFinalizedBlock: uint32(fin.Number), Auths: []types.GrandpaAuthoritiesRaw{a2}, Delay: 1})
+			}
+			h, ok := e.tryImport(tip, uint64(100+tip.Number), salt, dg...)
+			if !ok {
+				return // the import was refused (e.g. second forced change on a fork): scenario ends
+			}
+			parent, tip = tip, h
+		case 'f':
+			if parent == nil || !isAnc(fin, parent) { // no fork below the finalised head
+				continue
+			}
+			salt++
+			h, ok := e.tryImport(parent, uint64(100+parent.Number), salt)
+			if !ok {
+				return
+			}
+			tip = h
+		case 'Z', 'z':
+			target := tip
+			if c == 'z' {
+				if parent == nil || !isAnc(fin, parent) {
+					continue
+				}
+				target = parent
+			}
+			if target.Number <= fin.Number || !isAnc(fin, target) {
+				continue
+			}
+			round++
+			stop := false
+			func() {
+				defer func() {
+					if x := recover(); x != nil {
+						if x == "c36-finalise-stop" {
+							stop = true
+							return
+						}
+						panic(x)
+					}
+				}()
+				e.soft = true
+				defer func() { e.soft = false }()
+				e.finalise(target, round)
+			}()
+			if stop {
+				return
+			}
+			fin = target
+			if !isAnc(fin, tip) { // the tip was on an abandoned fork
+				tip, parent = fin, nil
+			}
+		}
+	}
+}
+
 func c36Less(r1, s1, r2, s2 uint64) bool { // (set, round) lexicographic: is (r1,s1) older than (r2,s2)?
 	if s1 != s2 {
 		return s1 < s2
@@ -334,10 +470,17 @@ func c36Less(r1, s1, r2, s2 uint64) bool { // (set, round) lexicographic: is (r1
 func TestVerif_C36(t *testing.T) {
 	r := verifmc.NewReport("C36", "crash-prefixes", "fault_enumeration")
 	defer r.Write()
-	r.Rule = "5 scripted scenarios on the real dot/state services (import = StoreTrie+AddBlock+HandleDigests+ApplyForcedChanges as core.handleBlock; finalise = SetJustification+SetPrevotes+SetPrecommits+SetFinalisedHash+SetLatestRound+ApplyScheduledChanges) over a logging database; for every prefix of the write-group log (batches atomic, order kept) the durable image is materialised and Service.Start is run; a case is non-trivial when the prefix cuts inside a step (not at a step boundary)"
+	r.Rule = "5 scripted scenarios plus every generated scenario of up to 3 (thorough 5) steps over {import on tip, import fork, import announcing a scheduled change, import announcing a forced change, finalise tip, finalise parent of tip} on the real dot/state services (import = StoreTrie+AddBlock+HandleDigests+ApplyForcedChanges as core.handleBlock; finalise = SetJustification+SetPrevotes+SetPrecommits+SetFinalisedHash+SetLatestRound+ApplyScheduledChanges) over a logging database; for every prefix of the write-group log (batches atomic, order kept) the durable image is materialised and Service.Start is run; a case is non-trivial when the prefix cuts inside a step (not at a step boundary)"
 	r.Assumption("the store applies batches atomically and keeps write order (as the property states); genesis initialisation is complete before the first crash point")
 	var evals int64
-	for _, sc := range c36Scenarios() {
+	genLen := verifmc.Pick(3, 5)
+	all := append(c36Scenarios(), c36Generated(genLen)...)
+	r.Extra["generated_scenarios_max_steps"] = genLen
+	for si, sc := range all {
+		if r.Expired() {
+			r.Capped(fmt.Sprintf("deadline: %d of %d scenarios done", si, len(all)))
+			break
+		}
 		env, genesisLog := c36NewEnv(t, sc.ver, sc.ver == trie.V1)
 		gh, err := env.svc.Block.GetHeaderByNumber(0)
 		if err != nil {
@@ -349,7 +492,11 @@ func TestVerif_C36(t *testing.T) {
 		for _, at := range env.stepAt {
 			boundaries[at] = true
 		}
-		r.Extra[sc.name] = map[string]any{"write_groups": len(log), "steps": env.steps, "step_ends": env.stepAt}
+		if !strings.HasPrefix(sc.name, "G:") {
+			r.Extra[sc.name] = map[string]any{"write_groups": len(log), "steps": env.steps, "step_ends": env.stepAt}
+		}
+		r.Add("scenarios", 1)
+		r.Add("write_groups", int64(len(log)))
 		var prevRound, prevSet uint64
 		for n := 0; n <= len(log); n++ {
 			evals++
@@ -445,7 +592,9 @@ func TestVerif_C36(t *testing.T) {
 			names = append(names, fmt.Sprintf("%s@%d", s, env.stepAt[i]))
 		}
 		sort.Strings(names)
-		r.Sample(map[string]any{"scenario": sc.name, "write_groups": len(log), "steps": names})
+		if !strings.HasPrefix(sc.name, "G:") || si%97 == 0 {
+			r.Sample(map[string]any{"scenario": sc.name, "write_groups": len(log), "steps": names})
+		}
 		env.db.Database.Close()
 	}
 	r.Add("evaluations", evals)
